@@ -1164,8 +1164,10 @@ impl AsBytes for f64 {
     }
 }
 impl AsBytes for char {
+    // A char8 occupies exactly one byte on the wire (the reader maps the byte back with
+    // `char::from(u8)`, i.e. ISO 8859-1). Code points that do not fit are not representable.
     fn as_bytes<'a, E>(&self, writer: &mut CdrWriter<'a>) {
-        writer.write_slice(self.to_string().as_bytes());
+        writer.write_byte(u8::try_from(u32::from(*self)).unwrap_or(b'?'));
     }
 }
 
